@@ -193,6 +193,9 @@ func c04Judge(c c04Case) c04Verdict {
 		if c.Flow == "mismatched-key" {
 			w.Store.FaultAt("GetResponseSigningKey", 1, world.FaultMismatch)
 		}
+		if c.Flow == "foreign-private-key" {
+			w.Store.FaultAt("GetResponseSigningKey", 1, world.FaultForeignKey)
+		}
 		rep, m := cbRun(w, t)
 		v.Class = "callback:" + m.Kind
 		v.Detail["reply"] = obs.Describe(rep, m)
@@ -385,6 +388,7 @@ func runC04(ctx Ctx) int {
 				cases = append(cases, c04Case{Kind: "callback", Binding: b, SigAlg: a, ACSMode: am})
 			}
 			cases = append(cases, c04Case{Kind: "callback", Binding: b, SigAlg: a, Flow: "mismatched-key"})
+			cases = append(cases, c04Case{Kind: "callback", Binding: b, SigAlg: a, Flow: "foreign-private-key"})
 			for f := range c04Fields {
 				for s := 1; s < len(sXML); s++ {
 					cases = append(cases, c04Case{Kind: "callback", Binding: b, SigAlg: a, Fields: []int{f}, Syms: []int{s}})
